@@ -291,12 +291,16 @@ type rec15 struct {
 	SdLenOk    bool   `json:"sdLenOk"` // Length entry and StreamLength = len(Raw)
 	SdDecOk    bool   `json:"sdDecOk"`
 	SdEq       bool   `json:"sdEq"`       // decoded content of a fresh stream object = original
+	InLens     []int  `json:"inLens"`     // bytes reaching every stage's encoder (original content), -1 = stage not reached
+	ModInLens  []int  `json:"modInLens"`  // the same for the edited content
+	FStage     string `json:"fstage"`     // file level: "skip" | "ok" | the step that failed (read, stream1, decode1, differs1, reencode, write, reread, stream2, decode2, differs2)
 	Edit       string `json:"edit"`       // the edit of the decode - edit - encode step (class Edits of Filter.tla)
 	Mod        []int  `json:"mod"`        // content the Go side expects after the edit (small cases; TLC compares with ApplyEdit)
 	ModDec     []int  `json:"modDec"`     // what the re-encoded stream decodes to (small cases)
+	SdModEncOk bool   `json:"sdModEncOk"` // edit -> Encode returned no error
 	SdModOk    bool   `json:"sdModOk"`    // edit -> Encode -> Decode ran without error
 	SdModEq    bool   `json:"sdModEq"`    // ... and returned the edited content
-	SdModFresh bool   `json:"sdModFresh"` // ... Raw after re-encoding = Raw of a fresh stream object holding the edited content
+	SdModFresh bool   `json:"sdModFresh"` // ... Raw after re-encoding = the filter chain's encoding of the edited content
 	SdModLen   bool   `json:"sdModLen"`   // ... Length entry and StreamLength = len(Raw)
 	File       string `json:"file"`       // "skip" | "ok" | failure description (write -> read of a PDF file)
 	Err        string `json:"err"`
@@ -375,6 +379,29 @@ func lengthFits(sd *types.StreamDict) bool {
 	return l != nil && *l == len(sd.Raw) && sd.StreamLength != nil && *sd.StreamLength == int64(len(sd.Raw))
 }
 
+func unreached(n int) []int {
+	l := make([]int, n)
+	for i := range l {
+		l[i] = -1
+	}
+	return l
+}
+
+// encodeChain encodes x with the filter chain (last array entry first); lens[i] = bytes that reached stage i (-1: not reached).
+func encodeChain(pipe []stage, x []byte) (enc []byte, lens []int, ok bool) {
+	lens = unreached(len(pipe))
+	cur := x
+	for i := len(pipe) - 1; i >= 0; i-- {
+		lens[i] = len(cur)
+		o := encodeStage(pipe[i], cur)
+		if !o.ok() {
+			return nil, lens, false
+		}
+		cur = o.data
+	}
+	return cur, lens, true
+}
+
 func newSD(p []stage) *types.StreamDict {
 	sd := types.NewStreamDict(types.NewDict(), 0, nil, nil, pipeline(p))
 	return &sd
@@ -413,12 +440,14 @@ func runC15(casesPath, outPath string, seed int64, capBytes int, withFile bool) 
 		}
 		n++
 		x0 := expand(c.Inp, seed)
-		r := &rec15{ID: n, Pipe: c.Pipe, Inp: c.Inp, N: len(x0), Obs: []obs{}, Orig: []int{}, Enc: []int{}, Dec: []int{}, Mod: []int{}, ModDec: []int{}, Edit: c.Edit, File: "skip"}
+		r := &rec15{ID: n, Pipe: c.Pipe, Inp: c.Inp, N: len(x0), Obs: []obs{}, Orig: []int{}, Enc: []int{}, Dec: []int{}, Mod: []int{}, ModDec: []int{}, Edit: c.Edit, File: "skip", FStage: "skip"}
 		var errs []string
 		// filter level: encode with the last array entry first
 		cur := x0
 		r.EncOk = true
+		r.InLens = unreached(len(c.Pipe))
 		for i := len(c.Pipe) - 1; i >= 0; i-- {
+			r.InLens[i] = len(cur)
 			o := encodeStage(c.Pipe[i], cur)
 			if !o.ok() {
 				r.EncOk = false
@@ -459,6 +488,13 @@ func runC15(casesPath, outPath string, seed int64, capBytes int, withFile bool) 
 				r.Dec = ints(dec)
 			}
 		}
+		// the edited content and its encoding by the filter chain
+		mod := editedContent(c.Edit, x0)
+		modEnc, modLens, modEncOk := encodeChain(c.Pipe, mod)
+		r.ModInLens = modLens
+		if r.Small {
+			r.Mod = ints(mod)
+		}
 		// whole stream objects
 		sd := newSD(c.Pipe)
 		sd.Content = x0
@@ -480,17 +516,11 @@ func runC15(casesPath, outPath string, seed int64, capBytes int, withFile bool) 
 			} else {
 				r.SdDecOk = true
 				r.SdEq = bytes.Equal(sd2.Content, x0)
-				mod := editedContent(c.Edit, x0)
-				if r.Small {
-					r.Mod = ints(mod)
-				}
 				applyEdit(c.Edit, sd2, x0)
 				if err := sdDo(sd2.Encode); err != nil {
 					errs = append(errs, "edited sd.Encode: "+err.Error())
 				} else {
-					fresh := newSD(c.Pipe)
-					fresh.Content = append([]byte{}, mod...)
-					ferr := sdDo(fresh.Encode)
+					r.SdModEncOk = true
 					sd3 := newSD(c.Pipe)
 					sd3.Raw = append([]byte{}, sd2.Raw...)
 					if err := sdDo(sd3.Decode); err != nil {
@@ -498,7 +528,7 @@ func runC15(casesPath, outPath string, seed int64, capBytes int, withFile bool) 
 					} else {
 						r.SdModOk = true
 						r.SdModEq = bytes.Equal(sd3.Content, mod)
-						r.SdModFresh = ferr == nil && bytes.Equal(fresh.Raw, sd2.Raw)
+						r.SdModFresh = modEncOk && bytes.Equal(modEnc, sd2.Raw)
 						r.SdModLen = lengthFits(sd2)
 						if r.Small {
 							r.ModDec = ints(sd3.Content)
@@ -597,6 +627,7 @@ func fileRoundTrip(batch []*rec15, data [][]byte) {
 	fail := func(msg string) {
 		for _, r := range batch {
 			r.File = msg
+			r.FStage = "read"
 		}
 	}
 	defer func() {
@@ -641,24 +672,29 @@ func fileRoundTrip(batch []*rec15, data [][]byte) {
 		sd, objNr, err := pageContentSD(ctx, i+1)
 		if err != nil {
 			r.File = "read stream: " + err.Error()
+			r.FStage = "stream1"
 			continue
 		}
 		if err := sdDo(sd.Decode); err != nil {
 			r.File = "decode after read: " + err.Error()
+			r.FStage = "decode1"
 			continue
 		}
 		if !bytes.Equal(sd.Content, data[i]) {
 			r.File = "content after read differs from the original"
+			r.FStage = "differs1"
 			continue
 		}
 		applyEdit(r.Edit, sd, data[i])
 		if err := sdDo(sd.Encode); err != nil {
 			r.File = "re-encode: " + err.Error()
+			r.FStage = "reencode"
 			continue
 		}
 		e, ok := ctx.FindTableEntryLight(objNr)
 		if !ok {
 			r.File = "no xref entry"
+			r.FStage = "stream1"
 			continue
 		}
 		e.Object = *sd
@@ -669,6 +705,7 @@ func fileRoundTrip(batch []*rec15, data [][]byte) {
 		for i, r := range batch {
 			if live[i] {
 				r.File = "write: " + err.Error()
+				r.FStage = "write"
 			}
 		}
 		return
@@ -680,6 +717,7 @@ func fileRoundTrip(batch []*rec15, data [][]byte) {
 		for i, r := range batch {
 			if live[i] {
 				r.File = "re-read: " + err.Error()
+				r.FStage = "reread"
 			}
 		}
 		return
@@ -688,6 +726,7 @@ func fileRoundTrip(batch []*rec15, data [][]byte) {
 		for i, r := range batch {
 			if live[i] {
 				r.File = fmt.Sprintf("re-read: page count %d (%v)", ctx2.PageCount, err)
+				r.FStage = "reread"
 			}
 		}
 		return
@@ -699,17 +738,21 @@ func fileRoundTrip(batch []*rec15, data [][]byte) {
 		sd, _, err := pageContentSD(ctx2, i+1)
 		if err != nil {
 			r.File = "re-read stream: " + err.Error()
+			r.FStage = "stream2"
 			continue
 		}
 		if err := sdDo(sd.Decode); err != nil {
 			r.File = "decode after write: " + err.Error()
+			r.FStage = "decode2"
 			continue
 		}
 		if !bytes.Equal(sd.Content, editedContent(r.Edit, data[i])) {
 			r.File = "content after write differs from the edited content (edit " + r.Edit + ")"
+			r.FStage = "differs2"
 			continue
 		}
 		r.File = "ok"
+		r.FStage = "ok"
 	}
 }
 
